@@ -184,6 +184,20 @@ theorem C13_every_reachable_object_is_a_window (data : Bytes) (hd : data.length 
     (∀ r ∈ (Sys.run [Rd.file { data := data, pos := 0 }] h).2, r.Good ∧ IsWindow r.content data) :=
   ⟨Sys.run_rooted data h _ (Sys.rooted_init_mem data hd) ha, Sys.run_rooted data h _ (Sys.rooted_init_file data hd) ha⟩
 
+/-- hence in every reachable system every object reports `Position() ≤ Length()`, and `Length()` is the size of the window of the
+    root it exposes — whatever out-of-bounds and wrapping arguments the history threw at it -/
+theorem C13_reachable_positions_in_range (data : Bytes) (hd : data.length < W64) (h : List (Nat × OOp)) (ha : ∀ p ∈ h, p.2.argOk) :
+    (∀ r ∈ (Sys.run [Rd.mem { data := data, pos := 0 }] h).2, r.pos ≤ r.len ∧ r.len = r.content.length ∧ r.len ≤ data.length) ∧
+    (∀ r ∈ (Sys.run [Rd.file { data := data, pos := 0 }] h).2, r.pos ≤ r.len ∧ r.len = r.content.length ∧ r.len ≤ data.length) := by
+  have key : ∀ r : Rd, r.Good ∧ IsWindow r.content data → r.pos ≤ r.len ∧ r.len = r.content.length ∧ r.len ≤ data.length := by
+    intro r ⟨hg, a, b, hw⟩
+    obtain ⟨_, h2, h3⟩ := Rd.observables r hg
+    rw [Rd.abs_content] at h2
+    refine ⟨h3, h2, ?_⟩
+    rw [h2, hw]; simp only [List.length_take, List.length_drop]; omega
+  obtain ⟨hm, hf⟩ := C13_every_reachable_object_is_a_window data hd h ha
+  exact ⟨fun r hr => key r (hm r hr), fun r hr => key r (hf r hr)⟩
+
 /-- one derivation: the new object exposes a window of what its parent exposes, and both are well-formed afterwards -/
 theorem C13_derived_object_is_a_window_of_its_parent (r : Rd) (d : DOp) (hr : r.Good) (hd : d.argOk) (n r' : Rd)
     (h : r.derive d = some (.ok (n, r'))) : n.Good ∧ r'.Good ∧ IsWindow n.content r.content :=
